@@ -245,15 +245,11 @@ class ZipFileBackend(StorageBackend):
         return os.path.join(identifier + '.json')
 
     def put(self, identifier: str, data: str, overwrite: bool=False) -> None:
-        if not self.exists(identifier):
-            with zipfile.ZipFile(self._root, mode='a', compression=self._compression_method) as myzip:
-                path = self._path(identifier)
-                myzip.writestr(path, data)
-        else:
-            if overwrite:
-                self._update(self._path(identifier), data)
-            else:
-                raise FileExistsError(identifier)
+        if self.exists(identifier) and not overwrite:
+            raise FileExistsError(identifier)
+        # new entries also go through the temporary copy: appending in place (mode 'a') overwrites the central
+        # directory of the archive first, so a process that dies before the archive is closed loses every entry
+        self._update(self._path(identifier), data)
 
     def get(self, identifier: str) -> str:
         path = self._path(identifier)
